@@ -80,6 +80,11 @@ func (e *envelope) Sign(req *signature.SignRequest) ([]byte, error) {
 		return nil, &signature.InvalidSignRequestError{
 			Msg: fmt.Sprintf("payload format error: %v", err.Error())}
 	}
+	if payload == nil {
+		// json.Unmarshal accepts the JSON value null for a map
+		return nil, &signature.InvalidSignRequestError{
+			Msg: "payload format error: payload must be a JSON object"}
+	}
 
 	// JWT sign and get certificate chain
 	compact, certs, err := sign(payload, signedAttrs, method)
